@@ -157,6 +157,18 @@ class VCtx:
         self.result.record(name, status, backend, model, approx=self.p.approx)
         return status == 'proved'
 
+    def check_via(self, name, lemma, cond):
+        """
+        obligation `cond`, tried first through a sufficient condition `lemma` (lemma => cond is the caller's responsibility, e.g.
+        cancelling a common factor from both sides of an equation); if the lemma is not proved the full condition decides
+        """
+        if self.symbolic:
+            status, backend, _ = self.p.prove(lemma)
+            if status == 'proved':
+                self.result.record(name, 'proved', backend, None)
+                return True
+        return self.check(name, cond)
+
     def cover(self, name):
         self.result.covers.add(name)
 
